@@ -104,8 +104,8 @@ Theorem version_checked_after_load_general :
     native_module_decision vreq ver sat c (Some p) f = [ELoaded; ERefusedVersion].
 Proof. exact version_checked_after_load. Qed.
 
-(* every run route (source, assembly, bytecode without embedded manifest) applies the project
-   manifest's policy; bytecode with an embedded manifest applies that one *)
+(* every run route (source, assembly, bytecode) applies the project manifest's policy; an embedded
+   manifest applies to bytecode that is run where no project manifest is *)
 Theorem route_manifest_applies :
   forall (vreq ver : Type) (sat : vreq -> ver -> bool) (r : route) (c : config) (project : option (manifest vreq))
          (path : list string) (f : nfile ver),
@@ -114,16 +114,25 @@ Theorem route_manifest_applies :
 Proof. exact route_applies_project_manifest. Qed.
 
 Theorem avbc_embedded_manifest_applies :
-  forall (vreq ver : Type) (sat : vreq -> ver -> bool) (c : config) (project : option (manifest vreq)) (emb : manifest vreq)
+  forall (vreq ver : Type) (sat : vreq -> ver -> bool) (c : config) (emb : manifest vreq)
          (path : list string) (f : nfile ver),
-    route_decision vreq ver sat RAvbc c project (Some emb) path f = native_module_decision vreq ver sat c (module_policy vreq emb path) f.
+    route_decision vreq ver sat RAvbc c None (Some emb) path f = native_module_decision vreq ver sat c (module_policy vreq emb path) f.
 Proof. exact avbc_route_embedded_manifest. Qed.
 
+(* a manifest carried by the file itself - anything can append one to a bytecode file - cannot switch the
+   project manifest off: where a project manifest is, it decides, on every route (repair of KF-C11-8) *)
+Theorem project_manifest_decides_on_every_route :
+  forall (vreq ver : Type) (sat : vreq -> ver -> bool) (r : route) (c : config) (m : manifest vreq)
+         (emb : option (manifest vreq)) (path : list string) (f : nfile ver),
+    route_decision vreq ver sat r c (Some m) emb path f = native_module_decision vreq ver sat c (module_policy vreq m path) f.
+Proof. exact project_manifest_decides. Qed.
+
 Theorem denied_capability_refuses_on_every_route :
-  forall (vreq ver : Type) (sat : vreq -> ver -> bool) (r : route) (c : config) (m : manifest vreq) (p : policy vreq)
+  forall (vreq ver : Type) (sat : vreq -> ver -> bool) (r : route) (c : config) (m : manifest vreq)
+         (emb : option (manifest vreq)) (p : policy vreq)
          (path : list string) (f : nfile ver) (cap : string),
     module_policy vreq m path = Some p -> In cap (p_caps p) -> In cap (denied c) ->
-    exists bad, route_decision vreq ver sat r c (Some m) None path f = [ERefusedCap bad].
+    exists bad, route_decision vreq ver sat r c (Some m) emb path f = [ERefusedCap bad].
 Proof. exact denied_capability_refuses_on_every_route. Qed.
 
 Example routes_agree :
@@ -153,7 +162,8 @@ Proof.
   assert (E : module_policy vreq m (dirs ++ [name]) = module_policy vreq m [name]).
   { unfold module_policy. rewrite last_last. destruct policy_lookup_tries_dotted_path; [|reflexivity].
     rewrite Hno. cbn [String.concat last]. destruct (sassoc name m); reflexivity. }
-  unfold route_decision. destruct r; cbn [manifest_for]; rewrite E; reflexivity.
+  unfold route_decision. destruct r; cbn [manifest_for]; try (rewrite E; reflexivity).
+  destruct avbc_route_project_manifest_wins; rewrite E; reflexivity.
 Qed.
 
 (* the capabilities the VM itself knows need their capability bit for native modules as well
